@@ -183,11 +183,15 @@ func (ts *TimeSeries) TakeFrom(src []byte) ([]byte, error) {
 	if ts.step == 0 {
 		return nil, errors.New("step must not be zero")
 	}
+	if ts.step < 0 {
+		return nil, errors.New("step must not be negative")
+	}
 	if ts.untilTime < ts.fromTime {
 		return nil, errors.New("untilTime is older than fromTime")
 	}
 
-	n := int(ts.untilTime.Sub(ts.fromTime) / ts.step)
+	// NOTE: untilTime.Sub(fromTime) overflows Duration for ranges wider than 2^31-1 seconds.
+	n := int((int64(ts.untilTime) - int64(ts.fromTime)) / int64(ts.step))
 	wantedSize := n * float64Size
 	if len(src) < wantedSize {
 		return nil, &WantLargerBufferError{WantedBufSize: 3*uint32Size + wantedSize}
@@ -281,7 +285,11 @@ func (pp *Points) TakeFrom(src []byte) ([]byte, error) {
 		return nil, &WantLargerBufferError{WantedBufSize: uint64Size}
 	}
 
-	count := int(binary.BigEndian.Uint64(src))
+	ucount := binary.BigEndian.Uint64(src)
+	if ucount > math.MaxInt32 {
+		return nil, errors.New("too many points")
+	}
+	count := int(ucount)
 	src = src[uint64Size:]
 
 	wantedSize := count * pointSize
